@@ -178,9 +178,10 @@ class RemoveEmptyExpressionsFormattingVisitor(
                         )
             case _:
                 if keys_to_remove:
-                    self.node_replacements[original_node] = self.node_replacements.get(
-                        original_node.left, original_node.left
-                    )
+                    # Replacing the whole operation by its left side here would discard
+                    # the edits recorded for the string pieces inside it. Leave
+                    # `left % ()` instead, which the next pass reduces to `left`.
+                    self.node_replacements[right] = cst.Tuple(elements=[])
 
 
 class RemoveUnusedVariables(VisitorBasedCodemodCommand, NameResolutionMixin):
